@@ -38,7 +38,7 @@ RULE = ("random include trees in a temporary directory tree (1-9 files, nested d
         "nested conditionals, unknown pragma/section, misformatted header, unknown molecule, bad count, "
         "Buckingham, include cycle).  distinct = hash of the file tree; a case is non-trivial when it has >= 1 include")
 
-FINDINGS = os.environ.get("VERIF_C08_FINDINGS", "") not in ("", "0")
+FINDINGS = True
 FINDING_SHAPES = ["tab-inside-section-header", "include-inside-moleculetype", "section-across-files", "molecules-in-included-file",
                   "define-inside-conditional", "conditional-after-moleculetype", "instance-parameter-lists-aliased"]
 TYPE_POOL = ["CT", "CA", "N", "O", "HC", "P", "S"]
@@ -690,8 +690,8 @@ def judge_flat(ctx, item, flat, model_single, expand):
         ctx.oracle_fail(shape_tag or "error-directive-ignored", "an #error whose condition is active (macros %s) did not "
                         "abort reading" % case.get("defined", "?"), replay)
     if not flat["abort"] and dump is None and case.get("malformed") is None:
-        ctx.oracle_fail(shape_tag or "rejects-valid-tree", "reading raised %s although no #error is active and the tree is "
-                        "well formed" % err, replay)
+        ctx.oracle_fail(shape_tag or "rejects-valid-tree", "reading raised %s although no #error is active and the tree is a valid "
+                        "input (nothing malformed was generated)" % err, replay)
     # the relation
     if (dump is None) != (fdump is None):
         ctx.oracle_fail(shape_tag or "flatten-accept-differs", "tree read %s, flattened file read %s"
